@@ -61,7 +61,28 @@ func pureC18(tr *Trace, br map[string]int) (out []Violation) {
 		h := strings.Fields(s.Res)[1]
 		for _, o := range byHash[h] {
 			if o.salt != f[1] || o.vd != f[2] {
-				key := "concat-ambiguity"
+				// what the commitment is documented to cover: the salt followed by every entry
+				committed := func(salt, vd string) (string, bool) {
+					b := decTok(salt)
+					wellFormed := true
+					for _, d := range parseVD(vd) {
+						for _, e := range d.entries {
+							b += e
+							if _, _, ok := parseEntry(e); !ok || strings.Count(e, ":") != 1 {
+								wellFormed = false
+							}
+						}
+					}
+					return b, wellFormed
+				}
+				b1, w1 := committed(o.salt, o.vd)
+				b2, w2 := committed(f[1], f[2])
+				key := "concat-ambiguity" // the same byte string cut differently into salt and well-formed entries (known finding)
+				if b1 != b2 {
+					key = "hash-ignores-data" // different committed byte strings, same hash: part of the vote is not covered
+				} else if !w1 || !w2 {
+					key = "opening-with-malformed-entry" // one of the openings is only acceptable because a malformed entry passes validation
+				}
 				out = append(out, viol("C18", key, i, "two different acceptable openings share commitment %s: (salt %s, data %s) and (salt %s, data %s)", h, o.salt, o.vd, f[1], f[2]))
 			}
 		}
